@@ -298,6 +298,28 @@ func c04AskMode(r *R, deathFocus, viaRestart bool) {
 		mu.Unlock()
 		w.Sys.Kill(w.RefBy("create", nil, fmt.Sprintf("/a%d", killAsker)), false, "scripted")
 		r.Count("asker-killed")
+		if deathFocus && !viaRestart && r.Chance(60) {
+			// a namesake takes the dead asker's place and asks in its turn while replies to its predecessor's requests are
+			// still on their way: such a reply belongs to nobody any more and must not complete a request of the namesake
+			vsimrt.SettleFor(20 * time.Millisecond)
+			if _, err := w.Spawn(&Spec{Name: fmt.Sprintf("a%d", killAsker)}); err == nil {
+				r.Count("namesake-asker")
+				for i := 0; i < 3; i++ {
+					a := &c04AskT{idx: len(asks), timeout: 5 * time.Second, fromActor: killAsker, waiters: 1, closeAt: -1}
+					a.req = c04Req{ID: 1000 + a.idx, Mode: []int{4, 2, 0}[i], Delay: 2 * time.Second}
+					asks = append(asks, a)
+					target := respRefs[r.Choose(nResp)]
+					w.Tell(w.RefBy("create", nil, fmt.Sprintf("/a%d", killAsker)), w.NewCmd("ask", a.idx, func(ctx vivid.ActorContext, p *Probe) {
+						mu.Lock()
+						a.askAt = w.now()
+						mu.Unlock()
+						f := ctx.Ask(target, a.req, a.timeout)
+						startWaiters(a, f)
+					}))
+				}
+				vsimrt.Settle()
+			}
+		}
 	}
 	vsimrt.Settle()
 	if stalled {
